@@ -147,5 +147,6 @@ func main() {
 		genAcc(p, *out)
 		genDump(p, *out)
 		genString(p, *out)
+		genWf(p, *out)
 	}
 }
